@@ -133,6 +133,9 @@ class Binder:
                     cols = Cols([], True)
             if cols is None:
                 cols = Cols([], True)
+            if alias is None and (len(parts) > 1 or "." in tname):
+                # schema-qualified table without alias: how it may be referred to is dialect business
+                return (None, cols)
             return (alias or tname, cols)
         if "Derived" in r:
             d = r["Derived"]
@@ -184,10 +187,15 @@ class Binder:
                 except Exception:
                     pass
                 rel = [c for (a, c) in scope if a and nm and a.lower() == nm.lower()]
-                if nm is None:
+                try:
+                    nparts = len(obj_name(qw[0].get("ObjectName")))
+                except Exception:
+                    nparts = 1
+                if nm is None or nparts > 1:
                     out_open = True
                 elif not rel:
-                    self.problem("unknown_relation", "%s.* but no relation %r in FROM" % (nm, nm))
+                    if not any(a is None for (a, _) in scope):
+                        self.problem("unknown_relation", "%s.* but no relation %r in FROM" % (nm, nm))
                     out_open = True
                 else:
                     out_names += rel[0].names
@@ -281,6 +289,10 @@ class Binder:
                     self.stats["refs_open"] += 1
                 return
             self.problem("unresolved_column", "%s: column %r is in no relation in scope %r" % (where, c, [a for a, _ in scope]))
+            return
+        if len(parts) > 2:
+            # schema.table.column / struct field access: cannot be decided without knowing which it is
+            self.stats["refs_open"] += 1
             return
         t, c = parts[-2], parts[-1]
         rel = [cols for (a, cols) in scope if a is not None and a.lower() == t.lower()]
